@@ -171,6 +171,10 @@ class Run:
         w.eio.logger = self.elog
         self.calls = []            # (thread, ns, sid, reason)
         self.access = []           # (thread, tag, name, ns, result)
+        self.side = list(cfg.get('side') or [])
+        self.connects = []         # (thread, tid, ns)
+        self.ev_calls = []         # (thread, sid, args)
+        self.samples = {}          # side thread -> [is the session of T1 on '/' connected?] before each of its steps
         sio = w.sio
 
         def mk(ns):
@@ -179,17 +183,31 @@ class Run:
                 self.access.append((det.idx(), 'handler', None, ns, None))
                 self.calls.append((det.idx(), ns, sid, reason))
             return on_disconnect
+        def mkc(ns):
+            def on_connect(sid, env):
+                self.connects.append((det.idx(), env.get('verif.tid'), ns))
+                if env.get('verif.tid') == 'T3':
+                    return False
+            return on_connect
+
+        def on_ev(sid, *args):
+            self.ev_calls.append((det.idx(), sid, list(args)))
+            return 'ok'
         for ns in NS_NAMES:
-            sio.on('connect', lambda sid, env: None, namespace=ns)
+            sio.on('connect', mkc(ns), namespace=ns)
             sio.on('disconnect', mk(ns), namespace=ns)
+        sio.on('ev', on_ev, namespace='/')
         w.open('T1')
         w.recv('T1', '0')
         w.recv('T1', '0/b,')
-        if cfg.get('others'):
+        if cfg.get('others') or 'bystander_disconnect' in self.side:
             w.open('T2')
             w.recv('T2', '0')
+        if 'bystander_refused' in self.side:
+            w.open('T3')
         self.mgr = sio.manager
         self.sids = [self.mgr.sid_from_eio_sid('T1', ns) for ns in NS_NAMES]
+        self.sid2 = self.mgr.sid_from_eio_sid('T2', '/') if 'T2' in w.socks else None
         w.sent_all()
         if cfg.get('nested'):
             # pre-emption also at the calls the manager makes to its own methods while the server is
@@ -206,9 +224,14 @@ class Run:
             'lost': lambda: sock.close(wait=False, abort=True, reason=w.eio.reason.TRANSPORT_CLOSE),
             'other_api': lambda: sio.disconnect(self.sids[1], namespace='/b'),
             'other_client': lambda: sock.receive(eio_packet.Packet(eio_packet.MESSAGE, '1/b,')),
+            # side actions: not terminating actions of the sid, no task of the model
+            'bystander_refused': lambda: w.socks['T3'].receive(eio_packet.Packet(eio_packet.MESSAGE, '0')),
+            'bystander_disconnect': lambda: sio.disconnect(self.sid2, namespace='/'),
+            'event': lambda: sock.receive(eio_packet.Packet(eio_packet.MESSAGE, '27["ev",1]')),
         }
-        self.n = len(cfg['actions'])
-        for i, a in enumerate(cfg['actions']):
+        self.n_model = len(cfg['actions'])
+        self.n = self.n_model + len(self.side)
+        for i, a in enumerate(list(cfg['actions']) + self.side):
             det.spawn(i, fns[a])
         self.sched = []            # real schedule (thread indices)
         self.labels = []           # label of the access performed at each step
@@ -238,6 +261,9 @@ class Run:
         return self.det.pending[i]
 
     def step(self, i):
+        if i >= self.n_model and self.side[i - self.n_model] == 'event':
+            cur = self.mgr.sid_from_eio_sid('T1', '/')
+            self.samples.setdefault(i, []).append(bool(cur is not None and self.mgr.is_connected(cur, '/')))
         self.sched.append(i)
         self.labels.append(self.det.pending[i])
         self.det.step(i)
@@ -269,7 +295,7 @@ class Run:
                 emit[pos] = lab
                 open_group[i] = pos
         for pos, i in enumerate(self.sched):
-            if pos not in emit:
+            if pos not in emit or i >= self.n_model:      # side actions are not tasks of the model
                 continue
             lab = emit[pos]
             key = access_key(lab)
@@ -293,7 +319,7 @@ class Run:
                 visited[i].append(nsn)
             msched.append(i)
             mpcs.append(pc)
-        for i in range(self.n):
+        for i in range(self.n_model):
             if acts[i] == 'lost':
                 for m in MODEL_TASK['lost'][1]:
                     if m not in visited[i]:
@@ -301,9 +327,15 @@ class Run:
                         mpcs.append('check')
                         visited[i].append(m)
         overlap = self._overlap(per_thread)
-        calls = {}
+        calls, by_calls, stray = {}, [], {}
         for (t, ns, sid, reason) in self.calls:
-            calls.setdefault(NS_NAMES.index(ns), []).append(REASON_KIND.get(reason, str(reason)))
+            k = REASON_KIND.get(reason, str(reason))
+            if sid == self.sids[NS_NAMES.index(ns)]:
+                calls.setdefault(NS_NAMES.index(ns), []).append(k)
+            elif sid == self.sid2:
+                by_calls.append(k)
+            else:
+                stray.setdefault(str(sid), []).append(k)
         raised = []
         for i in range(self.n):
             r = det.result.get(i)
@@ -321,17 +353,32 @@ class Run:
             pend = list(mgr.pending_disconnect.get(ns, [])).count(sid)
             residue[n] = (mem, pend)
         frames = w.sent('T1')
-        disc = {}
+        disc, acks = {}, []
         from .world import decode_frames
         for (ptype, pns, pid, pdata) in [f for f in decode_frames(frames) if len(f) == 4]:
             if ptype == 1:
                 disc[NS_NAMES.index(pns)] = disc.get(NS_NAMES.index(pns), 0) + 1
+            elif ptype == 3:
+                acks.append((pns, pid, pdata))
         other_ok = True
-        if self.cfg.get('others'):
+        if 'T2' in w.socks:
             s2 = mgr.sid_from_eio_sid('T2', '/')
-            other_ok = s2 is not None and mgr.is_connected(s2, '/')
+            other_ok = s2 is not None and bool(mgr.is_connected(s2, '/'))
+        side = {}
+        if 'bystander_disconnect' in self.side:
+            side['bystander_disconnect'] = {'calls': by_calls, 'still_connected': other_ok,
+                                            'pending': list(mgr.pending_disconnect.get('/', [])).count(self.sid2)}
+            other_ok = True
+        if 'bystander_refused' in self.side:
+            side['bystander_refused'] = {'frames': [(f[0], f[3]) for f in decode_frames(w.sent('T3')) if len(f) == 4],
+                                         'registered': mgr.sid_from_eio_sid('T3', '/') is not None}
+        if 'event' in self.side:
+            ei = self.n_model + self.side.index('event')
+            side['event'] = {'connected_before_each_step': self.samples.get(ei, []),
+                             'handler_runs': len(self.ev_calls), 'acks': acks}
         return {
-            'actions': list(acts), 'others': bool(self.cfg.get('others')),
+            'actions': list(acts), 'others': bool(self.cfg.get('others') or 'T2' in w.socks),
+            'side_actions': list(self.side), 'side': side, 'stray_calls': stray,
             'sched': list(self.sched),
             'labels': ['%s.%s%s' % (l[0], l[1], '' if len(l) < 3 or l[2] is None else '(%s)' % l[2])
                        if l[0] != 'handler' else 'handler(%s)' % l[1] for l in self.labels],
@@ -349,6 +396,8 @@ class Run:
         overlap = False
         for (t, tag, name, ns, res) in self.access:
             window.pop(t, None)
+            if t is None or t >= self.n_model:
+                continue
             if tag == 'mgr' and name in ('is_connected', 'can_disconnect') and res is True:
                 if any(w_ns == ns for tt, w_ns in window.items() if tt != t):
                     overlap = True
@@ -356,11 +405,13 @@ class Run:
         return overlap
 
 
-def explore(cfg, indep=None, limit=None):
+def explore(cfg, indep=None, limit=None, serial_only=False):
     """Stateless depth-first enumeration of every maximal schedule of `cfg`, each executed once on a
     fresh real server.  With `indep` (a symmetric predicate on (thread, label) pairs) sleep sets
     prune schedules that differ from an explored one only by the order of adjacent independent
-    accesses.  Yields the observation of every complete run."""
+    accesses.  With `serial_only` the search does not branch any more once two gate windows overlap
+    (exhaustive over the gate-serial schedules and over the ways into an overlap).  Yields the
+    observation of every complete run."""
     stack = []          # frames: {'en': [...], 'labels': {...}, 'sleep': {thread: label}, 'pos': k}
     n_runs = 0
     while True:
@@ -388,6 +439,9 @@ def explore(cfg, indep=None, limit=None):
             if not cand:
                 blocked = True
                 break
+            if serial_only and run._overlap(None):
+                # the run has entered the region of the known finding: finish it, do not branch further
+                cand = cand[:1]
             stack.append({'cand': cand, 'labels': labels, 'sleep': sleep, 'pos': 0})
             run.step(cand[0])
         if blocked:
